@@ -33,6 +33,8 @@ TReset == /\ l <= Len(Trace) /\ Trace[l].ev = "Reset" /\ l' = l + 1
 Predicted(pre, e) ==
     CASE e.ev = "Announce" -> DoAnnounce(pre, e.p, e.h)
       [] e.ev = "AnnounceSplit" -> DoAnnounceSplit(pre, e.p, e.h)
+      [] e.ev = "AnnounceHold"  -> DoAnnounceHold(pre, e.p, e.h)
+      [] e.ev = "AnnounceResume" -> DoAnnounceResume(pre, e.p, e.h)
       [] e.ev = "RegisterLate"  -> DoRegisterLate(pre, e.h)
       [] e.ev = "Arrive"   -> DoArrive(pre, e.h)
       [] e.ev = "Tick"     -> DoTick(pre)
@@ -40,18 +42,18 @@ Predicted(pre, e) ==
       [] e.ev = "LoopWake" -> DoLoopWake(pre)
       [] OTHER             -> [pre EXCEPT !.out = <<>>]
 
-TStep == /\ l <= Len(Trace) /\ Trace[l].ev \in {"Announce", "AnnounceSplit", "RegisterLate", "Arrive", "Tick", "LoopPoll", "LoopWake", "Skip"} /\ l' = l + 1
+TStep == /\ l <= Len(Trace) /\ Trace[l].ev \in {"Announce", "AnnounceSplit", "AnnounceHold", "AnnounceResume", "RegisterLate", "Arrive", "Tick", "LoopPoll", "LoopWake", "Skip"} /\ l' = l + 1
          /\ LET e    == Trace[l]
                 pre  == State
                 pred == Predicted(pre, e)
                 o    == OutOf(e.out)
-                obs  == [now |-> e.now, has |-> ToSet(e.has), cnt |-> pred.cnt, active |-> ActiveOf(e.active),
+                obs  == [now |-> e.now, has |-> ToSet(e.has), cnt |-> pred.cnt, capw |-> pred.capw, active |-> ActiveOf(e.active),
                          pend |-> PendOf(e.pend), pc |-> e.pc,
                          obj |-> [p |-> e.obj[1], h |-> e.obj[2], t |-> e.obj[3]],
                          out |-> o, pulls |-> AddPulls([h \in Hashes |-> Recent(pre.pulls[h], e.now)], o, e.now),
                          regs |-> [h \in Hashes |-> IF ActiveOf(e.active)[h] # None /\
                                                        (ActiveOf(e.active)[h] # pre.active[h] \/
-                                                        (e.ev \in {"LoopPoll", "LoopWake", "Announce"} /\ \E i \in 1..Len(o) : o[i].h = h) \/
+                                                        (e.ev \in {"LoopPoll", "LoopWake", "Announce", "AnnounceResume"} /\ \E i \in 1..Len(o) : o[i].h = h) \/
                                                         (e.ev = "RegisterLate" /\ e.h = h))
                                                     THEN <<ActiveOf(e.active)[h]>> ELSE pre.regs[h]],
                          late |-> [h \in Hashes |-> IF \E i \in 1..Len(e.late) : e.late[i][1] = h
